@@ -162,7 +162,7 @@ def _inv_obligations(vc, t):
 @harness("thermocouple_inverse_error", [], ["C18"], variants=[(t.upper(), t) for t in TYPES],
          note="for all real T of each NIST inverse range: |inverse(forward(T)) - T| within the NIST-stated error "
               "range (widened by 0.015 C); two-variable nonlinear real arithmetic, v = forward(T)",
-         split_variants=True, weight=20)
+         split_variants=True, weight=20, timeout_ms=90000)
 def _inverse_error(vc):
     for name, goal in _inv_obligations(vc, vc.variant):
         vc.ensure(name, SymBool(goal))
